@@ -919,6 +919,55 @@ def deprecated_tag_blocks():
     return out
 
 
+TAG_LINES = [('Returns: zero on success', ['returns', [], None, 'zero on success']),
+             ('returns: zero on success', ['returns', [], None, 'zero on success']),
+             ('Since: 2.30', ['since', [], '2.30', None]),
+             ('SINCE: 2.30', ['since', [], '2.30', None]),
+             ('Deprecated: 2.30: Use other', ['deprecated', [], '2.30', 'Use other']),
+             ('Stability: Stable', ['stability', [], 'Stable', None])]
+
+
+def nested_tag_cases():
+    """Continuation lines that begin with a tag word and a colon (upstream's "nested tags").  The rule
+    (grammar text of annotationparser.py + upstream's syntax_nested_tags expectations): such a line indented
+    DEEPER than the first line of the part it continues is description text of that part; at equal or
+    shallower indentation it starts a tag.  -> [(content lines, expected abstract view)]"""
+    out = []
+    deeper = ['    ', '  ', ' ', '\t']
+    for tl, tv in TAG_LINES:
+        # --- inside a parameter description (parameter line at indent 0 and at indent 2)
+        for pind in ('', '  '):
+            for d in deeper:
+                ind = pind + d
+                out.append((['foo_bar:', pind + '@p: first line', ind + tl, '', 'Does things.'],
+                            {'name': 'foo_bar', 'ann': [], 'params': [['p', [], 'first line\n' + ind + tl]],
+                             'desc': 'Does things.', 'tags': []}))
+            shallow = [pind] if not pind else [pind, ' ', '']        # equal / shallower
+            for ind in shallow:
+                out.append((['foo_bar:', pind + '@p: first line', ind + tl],
+                            {'name': 'foo_bar', 'ann': [], 'params': [['p', [], 'first line']], 'desc': None,
+                             'tags': [tv]}))
+        # --- inside the block description
+        for d in deeper:
+            out.append((['foo_bar:', '@p: a value', '', 'Does things:', d + tl, 'and more.'],
+                        {'name': 'foo_bar', 'ann': [], 'params': [['p', [], 'a value']],
+                         'desc': 'Does things:\n' + d + tl + '\nand more.', 'tags': []}))
+        out.append((['foo_bar:', '@p: a value', '', 'Does things:', tl],
+                    {'name': 'foo_bar', 'ann': [], 'params': [['p', [], 'a value']], 'desc': 'Does things:',
+                     'tags': [tv]}))
+        # --- inside a tag description (first tag of another name)
+        first = ('Returns: a value', ['returns', [], None]) if tv[0] != 'returns' else ('Since: 1.0: at first', ['since', [], '1.0'])
+        fdesc = 'a value' if tv[0] != 'returns' else 'at first'
+        for d in deeper:
+            out.append((['foo_bar:', '', 'Does things.', '', first[0], d + tl],
+                        {'name': 'foo_bar', 'ann': [], 'params': [], 'desc': 'Does things.',
+                         'tags': [first[1] + [fdesc + '\n' + d + tl]]}))
+        out.append((['foo_bar:', '', 'Does things.', '', first[0], tl],
+                    {'name': 'foo_bar', 'ann': [], 'params': [], 'desc': 'Does things.',
+                     'tags': [first[1] + [fdesc], tv]}))
+    return out
+
+
 def odd_tag_blocks():
     """Ordinary blocks whose tag line is spelled unusually: two-word tag names with one blank / two blanks / a
     tab / a no-break space between the words, upper / lower / mixed case, and letters that only match the tag
